@@ -107,6 +107,22 @@ def handle (fs : List String) : String :=
     match decInput pe kw files envs cli facts with
     | some inp => showOutcome (construct inp)
     | none => "bad-op"
+  | ["load2", pe, kw, files, envs, cli, facts] =>
+    match decInput pe kw files envs cli facts with
+    | some inp => showOutcome (loadAllTwice inp)
+    | none => "bad-op"
+  | ["loadfile", pe, kw, files, envs, cli, facts, fname] =>
+    match decInput pe kw files envs cli facts, decVal fname with
+    | some inp, some fname => showOutcome (constructThenFile inp fname)
+    | _, _ => "bad-op"
+  | ["constructp", pe, kw, files, envs, cli, facts, pos] =>
+    match decInput pe kw files envs cli facts, decDict pos with
+    | some inp, some pos => showOutcome (construct { inp with posArgs := pos })
+    | _, _ => "bad-op"
+  | ["loadp", pe, kw, files, envs, cli, facts, pos] =>
+    match decInput pe kw files envs cli facts, decDict pos with
+    | some inp, some pos => showOutcome (loadAll { inp with posArgs := pos })
+    | _, _ => "bad-op"
   | ["int", s] => match decStr s with
     | some s => optS (fun (i : Int) => s!"I{i}") (parseInt s)
     | none => "bad-op"
